@@ -36,7 +36,7 @@ Theorem axis_bounds_sound : forall sel segs mnl mnu mxl mxu,
      Q2R mnl <= reval (make_bezier QOps 1%Q (sel s)) u <= Q2R mxu) /\
   (exists c s x, In (c, s) segs /\ (0 <= x)%Q /\ (x <= 1)%Q /\ (horner QOps (make_bezier QOps 1%Q (sel s)) x == mnu)%Q) /\
   (exists c s x, In (c, s) segs /\ (0 <= x)%Q /\ (x <= 1)%Q /\ (horner QOps (make_bezier QOps 1%Q (sel s)) x == mxl)%Q).
-Proof. exact Stats_Proofs.axis_bounds_sound. Qed.
+Proof. exact (Stats_Proofs.axis_bounds_sound RootCert_Proofs.poly_max_sound RootCert_Proofs.poly_min_sound). Qed.
 Print Assumptions axis_bounds_sound.
 
 Example bbox_example :
